@@ -52,3 +52,30 @@ package alg
 //@   loop 0: invariant tcat(rawtxt(dbuf.Ptr + len(dst0), dbuf.Len - len(dst0)), htmlSpec(rawtxt(sbuf.Ptr + sidx, sbuf.Len - sidx))) == htmlSpec(old(txt(src0)))
 //@   after native.HTMLEscape: assert tcat(rawtxt(dbuf.Ptr + len(dst0), dbuf.Len - len(dst0)), rawtxt(dbuf.Ptr + dbuf.Len, dn)) == rawtxt(dbuf.Ptr + len(dst0), dbuf.Len + dn - len(dst0))
 //@   loop 0: modifies dst, dst[_]
+
+// Quote(buf, val, double) = buf ++ open ++ quoteSpec(val, flags) ++ close, where open/close
+// are `"` (or `"\"` / `\""` when double).  C06: only buf's spare capacity or a fresh array
+// is written, the prefix is preserved; C05: native.Quote is only ever handed windows inside
+// val and inside the spare capacity; C20: the restart after "output full" resumes exactly
+// at the first unconsumed input byte.
+//@ pure func qflags(double bool) uint64 = ite(double, types.F_DOUBLE_UNQUOTE, 0)
+//@ pure func qlen(double bool) int = ite(double, 3, 1)
+//@ func Quote props C05,C06,C20
+//@   modifies buf[_]
+//@   ensures base(result) == base(buf) || fresh(result)
+//@   ensures len(result) >= len(buf) + 2 * qlen(double)
+//@   ensures forall j int :: (0 <= j && j < len(buf)) ==> result[j] == old(buf[j])
+//@   ensures subtxt(result, len(buf) + qlen(double), len(result) - len(buf) - 2 * qlen(double)) == native.quoteSpec(txt(val), qflags(double))
+//@   assert double ==> (result[len(buf)] == 34 && result[len(buf) + 1] == 92 && result[len(buf) + 2] == 34)
+//@   ensures !double ==> (subtxt(result, len(buf), 1) == txt("\"") && subtxt(result, len(result) - 1, 1) == txt("\""))
+//@   ensures double ==> (subtxt(result, len(buf), 3) == txt("\"\\\"") && subtxt(result, len(result) - 3, 3) == txt("\\\"\""))
+//@   loop 0: invariant 0 <= nb && nb <= len(val) && len(val) > 0
+//@   loop 0: invariant forall j int :: (0 <= j && j < qlen(double)) ==> buf[len(buf0) + j] == pre(buf[len(buf0) + j])
+//@   loop 0: invariant nb > 0 ==> ptrindex(sp) == ptrlo(sp) + len(val) - nb
+//@   loop 0: invariant ptrhi(sp) == ptrlo(sp) + len(val)
+//@   loop 0: invariant len(buf0) + qlen(double) == pre(len(buf)) && pre(len(buf)) <= len(buf) && base(buf) != 0 && (base(buf) == base(buf0) || fresh(buf)) && cap(buf) - len(buf) >= 1
+//@   loop 0: invariant forall j int :: (0 <= j && j < len(buf0)) ==> buf[j] == old(buf0[j])
+//@   loop 0: invariant (base(buf) == pre(base(buf)) || newer(buf))
+//@   loop 0: invariant tcat(rawtxt(b.Ptr + pre(len(buf)), b.Len - pre(len(buf))), native.quoteSpec(rawtxtat(sp, ptrlo(sp) + len(val) - nb, nb), qflags(double))) == native.quoteSpec(txt(val), qflags(double))
+//@   after native.Quote: assert tcat(rawtxt(b.Ptr + (len(buf0) + qlen(double)), b.Len - (len(buf0) + qlen(double))), rawtxt(b.Ptr + b.Len, dn)) == rawtxt(b.Ptr + (len(buf0) + qlen(double)), b.Len + dn - (len(buf0) + qlen(double)))
+//@   loop 0: modifies buf, buf[_]
